@@ -375,6 +375,7 @@ var d8entries = []d8entry{
 	{"ecckd", "FromBitcoinSeed", "fromBitcoinSeedGen", false, "BipErr", "(O : Oracles)", "O", "", "", ""},
 	{"ecckd", "ExtendedKey.Public", "publicGen", false, "BipErr", "", "", "", "", ""},
 	{"ecckd", "FromPublicKey", "fromPublicKeyGen", false, "Unit", "", "", "", "", ""},
+	{"ecckd", "ExtendedKey.ToPublicSecp256k1", "toPublicSecpGen", false, "PubErr", "", "", "", "", ""},
 	{"", "PrivateKey.ECDH", "ecdhMethod", false, "Unit", "", "", "", "", ""},
 	{"", "Signature.Export", "exportGen", true, "", "", "", "", "", ""},
 	{"", "Sign", "signGen", false, "Unit", "", "", "", "", ""},
